@@ -13,6 +13,9 @@ import Distill.Model.Candidates
 import Distill.Model.IEReader
 import Distill.Model.Words
 import Distill.Model.Html
+import Distill.Model.TableClass
+import Distill.Model.TextRender
+import Distill.Gen.Funcs
 namespace Distill
 
 /-- the attributes of the element with the given id, `[]` when there is none -/
@@ -82,5 +85,40 @@ def deriveAtomsFull (t : Node) (A : CAtoms) : CAtoms :=
 theorem deriveAtomsFull_words (t : Node) (A : CAtoms) (i : Nat) (j : Nat) (d : String) (h : findNode i t = some (.text j d)) :
     (deriveAtomsFull t A).words i = derivedWords t d := by
   simp [deriveAtomsFull, derivedWords, h]
+
+mutual
+/-- (tag, contenteditable) of the ancestors of the node with the given id; `none` when it is not in the tree -/
+def ancestorsTo (i : Nat) (acc : List (String × String)) : Node → Option (List (String × String))
+  | .text j _ => if i == j then some acc else none
+  | .other j _ => if i == j then some acc else none
+  | .elem j t a ks => if i == j then some acc else ancestorsToL i ((t, getAttr a "contenteditable") :: acc) ks
+def ancestorsToL (i : Nat) (acc : List (String × String)) : List Node → Option (List (String × String))
+  | [] => none
+  | k :: ks => match ancestorsTo i acc k with | some r => some r | none => ancestorsToL i acc ks
+end
+
+/-- the classifier's `hasValidText`: `InnerText` neither empty nor all white space -/
+def derivedValidText (A : CAtoms) (e : Node) : Bool :=
+  let txt := innerText A e
+  !txt.isEmpty && !txt.all isSpaceChar
+
+/-- the table classifier's verdict "Data" on the table with the given id, in its place in the tree:
+features extracted by `tableFeatures`, the regenerated cascade `Gen.classify`; `none` when the
+features are outside the model -/
+def derivedDataTable (root : Node) (A : CAtoms) (i : Nat) : Option Bool :=
+  match findNode i root, ancestorsTo i [] root with
+  | some tn, some anc =>
+    let valid : Nat → Bool := fun j => match findNode j tn with | some e => derivedValidText A e | none => false
+    match tableFeatures anc valid tn with
+    | some f => match Gen.classify f with
+      | some (some g) => some (g.1 == "Data")
+      | _ => none
+    | none => none
+  | _, _ => none
+
+/-- … and the table classifier -/
+def deriveAtomsAll (t : Node) (A : CAtoms) : CAtoms :=
+  let B := deriveAtomsFull t A
+  { B with dataTable := fun i => match derivedDataTable t B i with | some b => b | none => A.dataTable i }
 
 end Distill
